@@ -77,6 +77,9 @@ func (vm *VM) setInt(r int8, i int64) {
 
 func (vm *VM) setIntIndirect(r int8, i int64) {
 	v := vm.regs.general[vm.fp[3]+Addr(r)]
+	if v.IsNil() {
+		panic(errNilPointer)
+	}
 	elem := v.Elem()
 	k := elem.Kind()
 	switch {
@@ -128,6 +131,9 @@ func (vm *VM) setBool(r int8, b bool) {
 
 func (vm *VM) setBoolIndirect(r int8, b bool) {
 	v := vm.regs.general[vm.fp[3]+Addr(r)]
+	if v.IsNil() {
+		panic(errNilPointer)
+	}
 	v.Elem().SetBool(b)
 }
 
@@ -166,6 +172,9 @@ func (vm *VM) setFloat(r int8, f float64) {
 
 func (vm *VM) setFloatIndirect(r int8, f float64) {
 	v := vm.regs.general[vm.fp[3]+Addr(r)]
+	if v.IsNil() {
+		panic(errNilPointer)
+	}
 	v.Elem().SetFloat(f)
 }
 
@@ -204,6 +213,9 @@ func (vm *VM) setString(r int8, s string) {
 
 func (vm *VM) setStringIndirect(r int8, s string) {
 	v := vm.regs.general[vm.fp[3]+Addr(r)]
+	if v.IsNil() {
+		panic(errNilPointer)
+	}
 	v.Elem().SetString(s)
 }
 
@@ -245,7 +257,11 @@ func (vm *VM) setGeneral(r int8, v reflect.Value) {
 }
 
 func (vm *VM) setGeneralIndirect(r int8, v reflect.Value) {
-	vm.regs.general[vm.fp[3]+Addr(r)].Elem().Set(v)
+	p := vm.regs.general[vm.fp[3]+Addr(r)]
+	if p.IsNil() {
+		panic(errNilPointer)
+	}
+	p.Elem().Set(v)
 }
 
 func (vm *VM) getIntoReflectValue(r int8, v reflect.Value, k bool) registerType {
